@@ -226,35 +226,67 @@ fn c20(tier: &str, seed: u64, replay_file: Option<String>) -> i32 {
             }
         };
     }
-    let results: StdMutex<Vec<(Cfg, usize, ExploreResult, Stats)>> = StdMutex::new(vec![]);
+    // bound-major order: every configuration completes preemption bound b before any starts b + 1, so
+    // that a run stopped by the overall deadline has a uniform coverage statement and the first
+    // counterexample has the fewest preemptions
+    let total_s: u64 = std::env::var("VERIF_SCHED_TOTAL_S").ok().and_then(|s| s.parse().ok()).unwrap_or(if tier == "thorough" { 1800 } else { 300 });
+    *dfs::DEADLINE.lock().unwrap() = Some(start + std::time::Duration::from_secs(total_s));
+    let max_bound = all.iter().map(|(_, b)| *b).max().unwrap_or(0);
+    let mut jobs_list: Vec<(usize, usize)> = vec![];
+    for b in 0..=max_bound {
+        for (i, (_, bound)) in all.iter().enumerate() {
+            if b <= *bound {
+                jobs_list.push((i, b));
+            }
+        }
+    }
+    // per configuration: the last result, whether it must not be explored further, all outcomes
+    let state: Vec<StdMutex<(Option<(usize, ExploreResult, Stats)>, bool, Stats)>> = all.iter().map(|_| StdMutex::new((None, false, Stats::default()))).collect();
+    let in_flight: Vec<AtomicUsize> = all.iter().map(|_| AtomicUsize::new(0)).collect();
     let next = AtomicUsize::new(0);
     let total_sched = AtomicU64::new(0);
     let jobs = std::thread::available_parallelism().map(|n| n.get()).unwrap_or(4);
     std::thread::scope(|s| {
         for _ in 0..jobs {
             s.spawn(|| loop {
-                let i = next.fetch_add(1, Ordering::SeqCst);
-                if i >= all.len() {
+                let k = next.fetch_add(1, Ordering::SeqCst);
+                if k >= jobs_list.len() {
                     break;
                 }
-                let (cfg, bound) = all[i];
-                // iterate the bound: 0, 1, ... so that the first counterexample has the fewest preemptions
-                let mut last = None;
-                for b in 0..=bound {
+                let (i, b) = jobs_list[k];
+                // bound b of a configuration starts only after its bound b - 1 has finished
+                while in_flight[i].load(Ordering::SeqCst) < b {
+                    std::thread::sleep(std::time::Duration::from_millis(5));
+                }
+                let (cfg, _) = all[i];
+                let skip = state[i].lock().unwrap().1 || Instant::now() >= start + std::time::Duration::from_secs(total_s);
+                if !skip {
                     let stats: StdArc<StdMutex<Stats>> = Default::default();
                     let res = explore(b, c20_body(cfg, stats.clone()));
                     total_sched.fetch_add(res.schedules, Ordering::SeqCst);
                     let st = std::mem::take(&mut *stats.lock().unwrap());
-                    let failed = res.failure.is_some() || res.divergence.is_some();
-                    last = Some((cfg, b, res, st));
-                    if failed {
-                        break;
-                    }
+                    let stop = res.failure.is_some() || res.divergence.is_some() || !res.exhausted;
+                    let mut g = state[i].lock().unwrap();
+                    g.2.outcomes.extend(st.outcomes.iter().cloned());
+                    g.0 = Some((b, res, st));
+                    g.1 = stop;
                 }
-                results.lock().unwrap().push(last.unwrap());
+                in_flight[i].store(b + 1, Ordering::SeqCst);
             });
         }
     });
+    let results: StdMutex<Vec<(Cfg, usize, ExploreResult, Stats)>> = StdMutex::new(vec![]);
+    let mut not_started: Vec<String> = vec![];
+    for (i, st) in state.into_iter().enumerate() {
+        let (last, _, all_outcomes) = st.into_inner().unwrap();
+        match last {
+            Some((b, res, mut stats)) => {
+                stats.outcomes.extend(all_outcomes.outcomes);
+                results.lock().unwrap().push((all[i].0, b, res, stats));
+            }
+            None => not_started.push(all[i].0.name()),
+        }
+    }
     let results = results.into_inner().unwrap();
     let mut violations = 0;
     let mut machinery = false;
@@ -269,8 +301,13 @@ fn c20(tier: &str, seed: u64, replay_file: Option<String>) -> i32 {
         for o in &st.outcomes {
             outcomes_all.insert(format!("{} {}", cfg.name(), o));
         }
-        per_cfg.push(json!({"config": cfg.name(), "preemption_bound_completed": bound, "schedules_at_last_bound": res.schedules, "distinct_outcomes": st.outcomes.len(), "exhausted": res.exhausted}));
-        completed_bounds.insert(cfg.name(), *bound);
+        let target = all.iter().find(|(c, _)| c.name() == cfg.name()).map(|(_, b)| *b).unwrap_or(*bound);
+        let completed: i64 = if res.exhausted && res.failure.is_none() { *bound as i64 } else { *bound as i64 - 1 };
+        per_cfg.push(json!({"config": cfg.name(), "preemption_bound_target": target, "preemption_bound_completed": completed, "last_bound_explored": bound, "schedules_at_last_bound": res.schedules, "distinct_outcomes": st.outcomes.len(), "last_bound_exhausted": res.exhausted}));
+        completed_bounds.insert(cfg.name(), completed.max(0) as usize);
+        if res.exhausted && res.failure.is_none() && *bound < target {
+            capped.push(format!("{} stopped after preemption bound {} of {} (overall deadline)", cfg.name(), bound, target));
+        }
         if !res.exhausted && res.failure.is_none() {
             capped.push(format!("{} at preemption bound {} ({} schedules explored)", cfg.name(), bound, res.schedules));
         }
@@ -298,6 +335,9 @@ fn c20(tier: &str, seed: u64, replay_file: Option<String>) -> i32 {
     }
     if machinery {
         return 2;
+    }
+    for n in &not_started {
+        capped.push(format!("{} not started (overall deadline)", n));
     }
     let schedules = total_sched.load(Ordering::SeqCst);
     let coverage = json!({
